@@ -18,6 +18,7 @@
 //!   fstr <hex body>               parse `f'<body>'`, offset relative to the body start
 //!   strs <enc> <pre> <post>       implicit concatenation of literal kinds (b/s/f/u/r/R/F)
 //!   bytes <hex body> <pre> <post> `b'<body>'`, offset relative to the body start
+//!   byteslit <prefix> <s|d|S|D> <hex body> <pre> <post>   `<prefix><quote><body><quote>`, same
 //!
 //! Error KIND is coarse (enum variants only, never message text).
 use pvh::*;
@@ -369,6 +370,27 @@ fn handle(ws: &[&str]) -> String {
             (Some(m), Some((a, b))) => judge(&a, &m, &b),
             _ => bad(),
         },
+        // byteslit <prefix b|rb|br|B|Rb..> <quote s|d|S|D> <body> <pre> <post>
+        ["byteslit", pfx, q, body, pre, post] => {
+            let quote = match *q {
+                "s" => "'",
+                "d" => "\"",
+                "S" => "'''",
+                "D" => "\"\"\"",
+                _ => return bad(),
+            };
+            if !pfx.chars().all(|c| "bBrR".contains(c)) {
+                return bad();
+            }
+            match (unhex_str(body), ctx(pre, post)) {
+                (Some(m), Some((a, b))) => judge(
+                    &format!("{}{}{}", a, pfx, quote),
+                    &m,
+                    &format!("{}{}", quote, b),
+                ),
+                _ => bad(),
+            }
+        }
         ["bytes", body, pre, post] => match (unhex_str(body), ctx(pre, post)) {
             (Some(m), Some((a, b))) => judge(&format!("{}b'", a), &m, &format!("'{}", b)),
             _ => bad(),
